@@ -1064,6 +1064,15 @@ fn write_replays(dir: &str) {
                 c => c,
             }
         }),
+        ("json-field-null-literal-through-instance", {
+            match mut_json(Val::Lit(PKind::Null)) {
+                Case::Requests(mut r) => {
+                    r.via_instance = true;
+                    Case::Requests(r)
+                }
+                c => c,
+            }
+        }),
         ("empty-verifying-key-room-node-answer", {
             use discret::verif as dvv;
             let node = dvv::database::node::Node { id: [1; 16], room_id: None, cdate: 1, mdate: 1, _entity: "0.0".into(), _json: Some("{}".into()), _signature: vec![0; 64], ..Default::default() };
